@@ -175,3 +175,177 @@ def c07(tier):
 
 
 REGISTRY = {"C07": c07}
+
+
+# ---------------------------------------------------------------------------------------------
+# C06: diagnostics name the true source location
+# ---------------------------------------------------------------------------------------------
+HFILES = {"h3.h": "char h3a;\nchar h3b;\nchar h3c;\n", "h2x.h": "char h2a;\nchar h2b;", "a.inc": "; assembler\n\tNOP\n"}
+
+
+def render_prefix_item(it, i):
+    k = it["k"]
+    u = "_%d" % i
+    if k == "blank":
+        return [""]
+    if k == "slc":
+        return ['// a comment with a "quote and a /* marker']
+    if k == "blk1":
+        return ["/* one line comment */"]
+    if k == "blk2":
+        return ["/* two", "   lines */"]
+    if k == "blk3":
+        return ["/* three", " * lines // with a marker", " */"]
+    if k == "cmtwrap":
+        return ["char cu%s; /* opens after code" % u, "closes before code */ char cv%s;" % u]
+    if k == "splice2":
+        return ["char \\", "sp%s;" % u]
+    if k == "splice3":
+        return ["char \\", "sq%s \\" % u, ";"]
+    if k == "def":
+        return ["#define D%s 7" % u]
+    if k == "defspl":
+        return ["#define E%s(x) \\" % u, "  ((x) + 1)"]
+    if k == "skip2":
+        return ["#if 0", "this is not C at all", "char never%s;" % u, "#endif"]
+    if k == "take1":
+        return ["#if 1", "char tk%s;" % u, "#endif"]
+    if k == "ifdefU":
+        return ["#ifdef UNDEFINED_NAME", "char nv%s;" % u, "#endif"]
+    if k == "use":
+        return ["const char us%s = M;" % u]
+    if k == "inc3n":
+        return ['#include "h3.h"']
+    if k == "inc2x":
+        return ['#include "h2x.h"']
+    if k == "incasm":
+        return ['#include "a.inc"']
+    raise ValueError(k)
+
+
+def render_error_item(e):
+    k = e["k"]
+    return {
+        "hash_error": ["#error boom"],
+        "unknown_dir": ["#foo bar"],
+        "unterminated": ['const char *us = "abc;'],
+        "endif": ["#endif"],
+        "noinclude": ['#include "nofile.h"'],
+        "pest": ["char 9bad;"],
+        "pest_spliced": ["char okk; \\", "char 9bad;"],
+        "unknown_id": ["void fe() {", "  zz = 1;", "}"],
+        "dupvar": ["char dupv;", "char dupv;"],
+        "break_outside": ["void fe() {", "  break;", "}"],
+        "continue_outside": ["void fe() {", "  continue;", "}"],
+        "wrong_return": ["void fe() {", "  return 3;", "}"],
+        "unknown_func": ["void fe() {", "  nofn();", "}"],
+        "too_many_args": ["void g0() { }", "void fe() {", "  g0(1);", "}"],
+        "subscript_scalar": ["char scv;", "void fe() {", "  scv[1] = 2;", "}"],
+        "bad_init": ["char bi = 3;"],
+    }[k]
+
+
+def render_loc(c):
+    main = ["#define M 1"]
+    seen_inc = set()
+    for i, it in enumerate(c["prefix"], 1):
+        ls = render_prefix_item(it, i)
+        if it["k"] in ("inc3n", "inc2x"):
+            # a C header may be included once only (its declarations would clash): later ones become blank lines
+            if it["k"] in seen_inc:
+                ls = [""]
+            seen_inc.add(it["k"])
+        assert len(ls) == it["n"], (it, ls)
+        main += ls
+    el = render_error_item(c["err"])
+    assert len(el) == c["err"]["n"]
+    files = dict(HFILES)
+    if c["where"] == "main":
+        main += el
+    else:
+        main.append('#include "errh.h"')
+        files["errh.h"] = "char eh1;\nchar eh2;\n" + "\n".join(el) + "\n"
+    main += ["char tail_decl;", "void main() { }"]
+    nl = "\r\n" if c["crlf"] else "\n"
+    return nl.join(main) + nl, files
+
+
+def c06(tier):
+    t0 = time.time()
+    pid = "C06"
+    verdict = common.Verdict(pid)
+    d = common.workdir("gen_c06")
+    cfg = os.path.join(d, "GenLoc.cfg")
+    maxp = 3 if tier == "quick" else 4
+    open(cfg, "w").write("SPECIFICATION Spec\nCONSTANTS MaxPrefix = %d\nINVARIANT Emit\nCHECK_DEADLOCK FALSE\n" % maxp)
+    res = common.run_tlc("GenLoc", cfg=cfg, name="gen_c06", tags={"CASE"}, workers=8, heap="8g", timeout=1500)
+    common.require_ok(res, "GenLoc")
+    cases = [o for (_, o) in res.lines]
+    cases.sort(key=lambda o: json.dumps(o, sort_keys=True))
+    total = len(cases)
+    rnd = random.Random(common.seed())
+    n = 24000 if tier == "quick" else 250000
+    if len(cases) > n:
+        # keep every (prefix of length <= 1) case, sample the rest
+        short = [c for c in cases if len(c["prefix"]) <= 1]
+        rest = [c for c in cases if len(c["prefix"]) > 1]
+        cases = short + rnd.sample(rest, max(0, n - len(short)))
+    hc = []
+    for i, c in enumerate(cases):
+        src, files = render_loc(c)
+        c["_src"], c["_files"] = src, files
+        hc.append(dict(id=i, src=src, files=files, variants=[dict(name="O1", args=["main.c", "-O1"])]))
+    obs = common.run_harness("compile", hc, "c06")
+    kf = {}
+    for fd in verdict.findings:
+        for k in fd.get("cases", []):
+            kf[k] = fd["id"]
+    nbad = 0
+    per_kind = {}
+    for c, ob in zip(cases, obs):
+        o = ob[0] if ob else {"status": "missing"}
+        ex = c["expected"]
+        key = "%s/%s" % (c["err"]["k"], c["where"])
+        pk = per_kind.setdefault(key, dict(cases=0, located=0))
+        pk["cases"] += 1
+        problem = None
+        if o.get("status") != "err":
+            problem = "expected a located error, got %s %s" % (o.get("status"), o.get("panic", ""))
+        else:
+            e = o["err"]
+            if e.get("file") != ex["file"]:
+                problem = "file %r, expected %r" % (e.get("file"), ex["file"])
+            elif not (ex["lo"] <= (e.get("line") or 0) <= ex["hi"]):
+                problem = "line %s, expected %s" % (e.get("line"), ex["lo"] if ex["lo"] == ex["hi"] else "%d..%d" % (ex["lo"], ex["hi"]))
+            elif ex["incl"] and (not e.get("incl") or e["incl"][0] != "main.c" or e["incl"][1] != ex["inclLine"]):
+                problem = "included_in %s, expected [main.c, %d]" % (json.dumps(e.get("incl")), ex["inclLine"])
+            elif not ex["incl"] and e.get("incl"):
+                problem = "included_in %s, expected none" % json.dumps(e.get("incl"))
+        if problem is None:
+            pk["located"] += 1
+            continue
+        # known findings are identified by (error kind, placement, class of problem, shifting construct involved)
+        cls = problem.split(",")[0].split(" ")[0]
+        pkinds = sorted(set(it["k"] for it in c["prefix"]))
+        keys = ["%s/%s/%s" % (c["err"]["k"], c["where"], cls)] + ["%s/%s/%s/%s" % (c["err"]["k"], c["where"], cls, p) for p in pkinds] + \
+               ["*/%s/%s/%s" % (c["where"], cls, p) for p in pkinds] + ["*/*/%s/%s" % (cls, p) for p in pkinds] + (["*/*/%s/crlf" % cls] if c["crlf"] else [])
+        hit = [kf[k] for k in keys if k in kf]
+        if hit:
+            verdict.attribute(hit[0])
+            continue
+        nbad += 1
+        verdict.violation("%s in %s after %s%s: %s" % (c["err"]["k"], c["where"], [it["k"] for it in c["prefix"]], " (CRLF)" if c["crlf"] else "", problem),
+                          dict(property=pid, prefix=c["prefix"], error_item=c["err"], where=c["where"], crlf=c["crlf"], expected=ex, observed=o.get("err", o.get("status")),
+                               display=o.get("display"), source=c["_src"], files=c["_files"], problem=problem, finding_keys=keys))
+    cov = dict(states=res.distinct, transitions=res.generated, traces_validated_against_impl=len(cases),
+               samples=[dict(prefix=[it["k"] for it in c["prefix"]], error=c["err"]["k"], where=c["where"], expected=c["expected"], source=c["_src"]) for c in cases[100:102]],
+               cases_generated=total, cases_replayed=len(cases), per_error_kind=per_kind, disagreements=nbad, attributed_to_known_findings=verdict.known,
+               exhaustive=(len(cases) == total),
+               explanation="GenLoc.tla enumerates prefixes of line-shifting constructs (comments, splices, defines, skipped/taken conditionals, includes with and "
+                           "without final newline, assembler includes, CR-LF) followed by one error of each kind in the main file or in a header, and computes the "
+                           "origin; the real compiler's Error{filename,line,included_in} must name it.")
+    common.write_evidence(pid, tier, "model_checking", cov, time.time() - t0, len(verdict.violations), ["columns are not checked", "renderer asserted to produce the stated line counts"])
+    return verdict.finish(max_print=40)
+
+
+REGISTRY["C06"] = c06
